@@ -63,6 +63,8 @@ pub mod compile;
 mod cpp;
 pub mod error;
 pub mod generate;
+#[cfg(cc6502_verif)]
+pub mod verif_hooks;
 
 extern crate pest;
 #[macro_use]
